@@ -18,6 +18,12 @@ def supervise(prop, argv):
     r = subprocess.run([sys.executable, "-W", "ignore", "-m", "harness.main", "--child", *argv], cwd=common.VERIF)
     if r.returncode in (0, 1, 2):
         return r.returncode
+    broken = None
+    if r.returncode == 5:
+        try:
+            broken = json.loads((common.CACHE / f"broken_{prop}.json").read_text())
+        except Exception:
+            broken = {"exception": "unknown"}
     journal = common.CACHE / f"journal_{prop}.jsonl"
     entries = []
     try:
@@ -32,6 +38,11 @@ def supervise(prop, argv):
     payload = {"property": prop, "kind": "implementation-crashed-the-interpreter", "exit_status": r.returncode,
                "note": "the check's interpreter died (signal / abnormal exit) while exercising the implementation; "
                        "violations journalled before the crash and the last breadcrumb are listed",
+               **({"kind": "correspondence-broken", "correspondence": f"harness.{prop.lower()} (model vs implementation differential run)",
+                   "broken_at": broken,
+                   "note": "the correspondence check could not drive the implementation (its interface or types changed): the "
+                           "property is no longer shown to hold on this tree; violations journalled before the break are listed"}
+                  if broken is not None else {}),
                "violations_before_crash": viols[:5], "last_breadcrumb": crumbs[-1] if crumbs else None,
                "seed": common.seed(), "tier": tier, "repo": common.repo_git_state(),
                "replay_cmd": f"./check {prop} --replay <this file>"}
@@ -40,7 +51,7 @@ def supervise(prop, argv):
     blob = json.dumps(payload, indent=1, sort_keys=True, default=str)
     name = hashlib.sha1(blob.encode()).hexdigest()[:12] + ".json"
     (d / name).write_text(blob)
-    found = bool(viols or crumbs)
+    found = bool(viols or crumbs) if broken is None else bool(viols)
     print(f"VIOLATION property={prop} replay=replays/{prop}/{name}" + ("" if found else " no-failing-input-found"))
     ev = {"property_id": prop, "tier": tier if tier in ("quick", "thorough") else "quick", "seed": common.seed(), "level": "proof",
           "coverage": {"obligations": max(1, (audit or {}).get("obligations", start.get("theorems", 1))),
@@ -101,10 +112,42 @@ def main(argv):
     except common.Infra as e:
         print(f"INFRA-FAILURE property={prop}: {e}")
         return 2
-    except Exception:
+    except Exception as e:
         traceback.print_exc()
+        drift = interface_drift(e)
+        if drift is not None:
+            # the harness could not drive the implementation (signature, type or name changed under it): the
+            # correspondence no longer checks.  That is reported as a violation without a failing input
+            # (unless one was journalled before), never as an infrastructure failure.
+            try:
+                (common.CACHE / f"broken_{prop}.json").write_text(json.dumps(drift, default=str))
+            except OSError:
+                pass
+            return 5
         print(f"INFRA-FAILURE property={prop}: unexpected exception in the harness")
         return 2
+
+
+def interface_drift(exc):
+    """details of an exception that comes from calling into the implementation, else None"""
+    repo = str(common.REPO)
+    frames = traceback.extract_tb(exc.__traceback__)
+    mod = type(exc).__module__ or ""
+    text = f"{type(exc).__name__}: {exc}"
+    in_repo = [f for f in frames if f.filename.startswith(repo)]
+    harness_frames = [f for f in frames if "/harness/" in f.filename]
+    named = isinstance(exc, (ImportError, AttributeError)) and "mchap" in str(exc)
+    verif = str(common.VERIF)
+    foreign = bool(frames) and not frames[-1].filename.startswith(verif)    # raised by code the harness called into
+    # Every unexpected exception of a harness run is treated as a broken correspondence: failures of the machinery
+    # itself (build, time-outs, missing tools) are raised as common.Infra, and what is left is the harness failing
+    # to drive the implementation — also when the innermost Python frame is the harness line calling it (errors
+    # raised by compiled dispatchers have no frame of their own).
+    _ = (in_repo, named, foreign)
+    at = harness_frames[-1] if harness_frames else None
+    return {"exception": text[:2000],
+            "harness_location": f"{at.filename}:{at.lineno} ({at.name}): {at.line}" if at else None,
+            "implementation_frames": [f"{f.filename}:{f.lineno} ({f.name})" for f in in_repo[-5:]]}
 
 
 if __name__ == "__main__":
